@@ -10,6 +10,13 @@
                                    pristine copy of the model, (b) the teacher-forced masked forward pass over the emitted
                                    symbols, (c) every line decoded alone on a pristine copy
      margin, eq_unc, eq_alone      smallest top-2 margin (1e-7 units) over all runs compared; transcriptions equal (0/1)
+     kind                          what the line images of the call were (0 ordinary, 1 all (almost) black: uint8 values 0/1,
+                                   2 black and ordinary lines mixed, 3 constant lines); informative - the clauses below hold for
+                                   every kind, the references are always computed on image / 255 and on each line alone
+     d_late, eq_late               taken only AFTER the whole history has been decoded on the engine object, on the very objects
+                                   the call handed back (kept by the caller, not copied): max |difference| (1e-7 units) between the
+                                   kept per-step scores and the recomputation / teacher-forced pass obtained right after the call;
+                                   kept transcriptions and shape still those seen right after the call (0/1)
    Strict = FALSE: property-level acceptance, a predicate per call (terminated, clean transcription, own symbols only,
    numeric equalities within Tol, transcriptions equal when the margin exceeds Marg).
    Strict = TRUE: additionally the whole history must be a behaviour of TransformerCache (loop iterations, stop rule, cap,
@@ -33,10 +40,14 @@ OwnOK(b, l) == LET sq == b.syms[l]
                      ELSE \E m \in 0..b.S : b.res[l] = Post(Prefix(sq, m))         \* or capped: some prefix of its own symbols
 NumOK(b) == /\ b.d_unc <= Tol /\ b.d_tf <= Tol /\ b.d_alone <= Tol
             /\ b.margin > Marg => (b.eq_unc = 1 /\ b.eq_alone = 1)
+\* the result of a call stays the result of that call whatever the same engine decodes afterwards (a returned tensor
+\* must not alias a buffer that the next batch re-uses): the scores the caller kept still equal the recomputation
+StaysOK(b) == b.d_late <= Tol /\ b.eq_late = 1
 BatchOK(b) == /\ b.outcome = "ok" /\ b.S >= 1
               /\ Len(b.syms) = b.n /\ Len(b.res) = b.n
               /\ \A l \in 1..b.n : OwnOK(b, l)
               /\ NumOK(b)
+              /\ StaysOK(b)
 GoodPrefix == CHOOSE m \in 0..NB : (\A j \in 1..m : BatchOK(Tr.batches[j])) /\ (m < NB => ~BatchOK(Tr.batches[m + 1]))
 
 TInit == /\ tid \in 1..NTraces
